@@ -412,6 +412,18 @@ func (c *opsCase) readBattery(roots []*node) {
 	c.emit("tape p")
 	c.emit("owalk p")
 	c.expectLast(ordRoots(roots))
+	// the edited tape still obeys the documented format (dense check: a gap contains nothing but NOP entries) …
+	c.emit("wf p")
+	c.expectLast("wf " + ordRoots(roots))
+	// … and the serializer, which walks the tape linearly, reflects the same document
+	if r.chance(1, 2) {
+		if out := c.emit("serde sd p"); strings.HasPrefix(out, "ok") {
+			c.emit("owalk sd")
+			c.expectLast(ordRoots(roots))
+		} else {
+			c.expectLast("<Serialize/Deserialize of the edited tape succeeds>")
+		}
+	}
 	c.emit("iter i0 p")
 	c.emit("interface i0")
 	{
